@@ -188,10 +188,25 @@ pub fn run_once(w: &Workload, slot: &Path, mut sched: Sched) -> RunResult {
     }
     let mut res = RunResult::default();
     res.had_initial = !w.initial.is_empty();
+    // The repaired code serializes removals and publications with an advisory lock (flock, invisible at the libc
+    // seam) on `.lsp-locks/.guard`. Opening and closing that file *are* events, so the controller tracks who holds
+    // the guard: a process that opens it while another one holds it will block in the kernel, so no request is
+    // awaited from it until the holder's close has been granted (at most one waiter at a time: a second process
+    // about to open the guard is simply not enabled, which models its arriving later).
+    let is_guard_open = |r: &str| r.contains(" open ") && r.contains("/.guard");
+    let is_guard_close = |r: &str| r.contains(" close ") && r.contains("/.guard");
+    let mut guard_holder: Option<usize> = None;
+    let mut guard_waiter: Option<usize> = None;
     let mut current: Option<usize> = None;
     let mut burst_target: Option<usize> = None;
     loop {
-        let enabled: Vec<usize> = procs.iter().enumerate().filter(|(_, p)| p.alive && !p.exited && !p.parked_done && p.pending.is_some()).map(|(i, _)| i).collect();
+        let enabled: Vec<usize> = procs
+            .iter()
+            .enumerate()
+            .filter(|(_, p)| p.alive && !p.exited && !p.parked_done && p.pending.is_some())
+            .filter(|(i, p)| !(is_guard_open(p.pending.as_deref().unwrap_or("")) && guard_holder.is_some() && guard_holder != Some(*i) && guard_waiter.is_some()))
+            .map(|(i, _)| i)
+            .collect();
         if enabled.is_empty() {
             break;
         }
@@ -308,19 +323,38 @@ pub fn run_once(w: &Workload, slot: &Path, mut sched: Sched) -> RunResult {
             p.faulted = true;
         }
         unsafe { libc::send(p.sock, msg.as_ptr() as *const _, msg.len(), libc::MSG_NOSIGNAL) };
+        let opens_guard = is_guard_open(&req);
+        let closes_guard = is_guard_close(&req);
         if kill {
             let _ = p.child.wait();
             p.alive = false;
             p.exited = true;
             write_live(&procs);
+        } else if opens_guard && guard_holder.is_some() && guard_holder != Some(pi) {
+            // it blocks in flock() now: nothing to wait for until the holder lets go
+            guard_waiter = Some(pi);
         } else {
             fetch(p);
+            if opens_guard && !p.exited {
+                guard_holder = Some(pi);
+            }
             // a process that terminates by itself after an injected failure has crashed (the unchanged code
             // panics when `ps` cannot be spawned): from here on it is a dead process, not a misbehaving one
             if p.exited && p.faulted && p.alive {
                 let _ = p.child.wait();
                 p.alive = false;
                 write_live(&procs);
+            }
+        }
+        // the guard is free again when its holder closed it, was killed, or exited: the waiter (if any) acquires it
+        let holder_gone = guard_holder == Some(pi) && (closes_guard || kill || procs[pi].exited);
+        if holder_gone {
+            guard_holder = None;
+            if let Some(wt) = guard_waiter.take() {
+                fetch(&mut procs[wt]);
+                if !procs[wt].exited {
+                    guard_holder = Some(wt);
+                }
             }
         }
     }
